@@ -80,9 +80,13 @@ class OperatorCheck(Check):
                                                scope="B3dup"))
                     ndup += 1
         self.stats["B3dup"] = ndup
-        for alpha_name, size, per_class, tq in self.b3[tier]:
+        for entry in self.b3[tier]:
+            alpha_name, size, per_class, tq = entry[:4]
+            step = entry[4] if len(entry) > 4 else 1      # every step-th structure (residue chosen by the seed)
             size = min(size, self.maxn[tier] if isinstance(self.maxn, dict) else self.maxn)
             reps, st = scopes.structural_scope(getattr(scopes, alpha_name), scopes.SIG3, size, self.want, seed, per_class)
+            reps = reps[seed % step::step]
+            st["executed_representatives"] = len(reps)
             self.stats["B3(%d)-%s" % (size, alpha_name)] = st
             for i, (conds, cls) in enumerate(reps):
                 via = "parse" if (i + seed) % 4 == 1 else "api"
